@@ -77,6 +77,7 @@ class Recorder:
         self.in_jump = 0
         self.in_sweep = False
         self.qpass = 0
+        self.ar_args = (None, None)
         self.nev = {}           # id(prop) -> number of updates that changed its adaptive state
         self._saved = []
 
@@ -122,7 +123,16 @@ class Recorder:
             if not self_._call_jump():
                 return 0.0
             v = self_._logpdf(xi, givenx)
-            rec.log.append(('Q', self_, 'rev' if rec.qpass % 2 == 1 else 'fwd', float(v)))
+            # direction by ARGUMENTS: q(current | proposed) is the reverse density; fall back to
+            # the call order only when the points cannot be identified
+            cur, prop = rec.ar_args
+            if xi is cur and givenx is prop:
+                direction = 'rev'
+            elif xi is prop and givenx is cur:
+                direction = 'fwd'
+            else:
+                direction = 'rev' if rec.qpass % 2 == 1 else 'fwd'
+            rec.log.append(('Q', self_, direction, float(v)))
             return v
         self._patch(pbase.BaseProposal, 'logpdf', logpdf)
 
@@ -142,6 +152,9 @@ class Recorder:
 
         def _acceptance_ratio(self_, *a, **k):
             rec.qpass = 0
+            # (logp, logl, proposal, current_logp, current_logl, current_pos)
+            rec.ar_args = (a[5] if len(a) > 5 else k.get('current_pos'),
+                           a[2] if len(a) > 2 else k.get('proposal'))
             return orig_ar(self_, *a, **k)
         self._patch(Chain, '_acceptance_ratio', _acceptance_ratio)
 
